@@ -19,7 +19,7 @@ LEVEL_NOTE = "segment boundaries are controlled by the simulator (one write = on
 ASSUMPTIONS = []
 
 KINDS = [("http", 3), ("socks5", 3), ("socks5p", 2), ("socks5auth", 2), ("socks4", 2), ("socks4a", 2), ("up-http", 2), ("up-socks5", 2), ("up-socks4", 1),
-         ("rpfm", 3), ("trunc-http", 2), ("trunc-socks5", 2), ("trunc-socks4", 1), ("trunc-socks4a", 2), ("trunc-rpfm", 2)]
+         ("rpfm", 3), ("up-rpfm", 2), ("trunc-http", 2), ("trunc-socks5", 2), ("trunc-socks4", 1), ("trunc-socks4a", 2), ("trunc-rpfm", 2)]
 
 
 def wchoice(rng, items):
@@ -137,6 +137,24 @@ def gen(rng, tier, i):
                     cuts_desc.append(o["cuts"])
             ci["server"]["conns"] = [hs0 + serve, hs1 + serve]
         meta.update({"tunnels": tunnels, "cuts": cuts_desc, "upstream": ci["kind"] != "direct"})
+    elif kind == "up-rpfm":
+        # frames from an upstream HTTP proxy on the inline channel, the first ones possibly in the same segment as its "200"
+        li = sc.add_http_listener("l")
+        ci = sc.add_http_connector("u")
+        sc.rule("u")
+        nfr = rng.randint(1, 5)
+        frames = [bytes([0x40 + k]) + rng.randbytes(rng.choice([0, 1, 10, 200, 1400])) for k in range(nfr)]
+        target = "%s:%d" % (oip, oport)
+        req = rc.http_connect(target, [("Host", target), ("Proxy-Protocol", "udp")])
+        yes = b"HTTP/1.1 200 OK\r\nSession-Id: %d\r\n\r\n" % rng.choice([0, 7])
+        stream = yes + b"".join(rc.rpfm_frame(0, oip, oport, b) for b in frames)
+        cuts = cutset(rng, len(stream), tier, i) if rng.random() < 0.6 else rng.choice([[], [len(yes) + rng.randint(1, 30)], [len(yes) - 1]])
+        if len(cuts) > 300:
+            gap = 1
+        ci["server"]["default_ops"] = [op("recv_http_head", label="upreq"), send(stream, cuts=cuts, gap_ms=gap, timeout_ms=600000), op("recv_eof", timeout_ms=600000, on_fail="continue")]
+        rops = [op("recv_rpfm", timeout_ms=600000, label="echo%d" % k) for k in range(nfr)]
+        sc.add_client("t-cut", li, [send(req), op("recv_http_head", label="reply")] + rops + [op("shutdown")], start_ms=10)
+        meta.update({"frames": [f.hex() for f in frames], "cuts": [cuts]})
     else:
         # RPFM frames on an inline UDP-over-HTTP stream
         li = sc.add_http_listener("l")
@@ -176,7 +194,13 @@ def gen(rng, tier, i):
                 gap = 1   # byte-wise delivery of a long stream: keep the whole transfer well inside every timeout
             # read as many reply frames as we sent (the origin echoes), then finish
             rops = [op("recv_rpfm", timeout_ms=600000, label="echo%d" % k) for k in range(nfr)]
-            ops = [send(req), op("recv_http_head", label="reply"), op("par", w=[send(stream, cuts=cuts, gap_ms=gap, timeout_ms=600000), op("sleep", ms=500), op("shutdown")], r=rops)]
+            if rng.random() < 0.4:
+                # the client does not wait for the "200": its first frames follow the request head, possibly in the same segment
+                gcuts = rng.choice([[], [len(req)], [len(req) + rng.randint(1, 40)], [len(req) - 1], sorted(set([len(req) + c for c in cuts]))])
+                ops = [op("par", w=[send(req + stream, cuts=gcuts, gap_ms=gap, timeout_ms=600000), op("sleep", ms=500), op("shutdown")], r=[op("recv_http_head", label="reply")] + rops)]
+                cuts = gcuts
+            else:
+                ops = [send(req), op("recv_http_head", label="reply"), op("par", w=[send(stream, cuts=cuts, gap_ms=gap, timeout_ms=600000), op("sleep", ms=500), op("shutdown")], r=rops)]
             sc.add_client("t-cut", li, ops, start_ms=10)
             meta.update({"frames": [f.hex() for f in frames], "cuts": [cuts]})
     meta["cls"] = kind
@@ -207,17 +231,17 @@ def oracle(plan, out):
             v("truncated-proceeds", "the %s handshake was cut by EOF at byte %d of %d, yet the proxy contacted an upstream (%d connections): a request was fabricated from a partial message" % (
                 meta["proto"], meta["trunc_at"], meta["whole_len"], contacted))
         return V
-    if kind in ("rpfm", "trunc-rpfm"):
+    if kind in ("rpfm", "trunc-rpfm", "up-rpfm"):
         rep = R.op_by_label("t-cut", "reply")
         if rep is None or rep["res"] != "ok" or not bytes.fromhex(rep["hex"]).startswith(b"HTTP/1.1 200"):
             v("not-established", "UDP-over-HTTP association was not established: %s" % (rep and rep.get("hex", "")[:60]))
             return V
         got = [(r["len"], r["hash"]) for r in R.records if r.get("actor") == "uorigin" and r.get("udp") == "recv"]
         want = [bytes.fromhex(h) for h in meta["frames"]]
-        if got != [(len(w), rc.fnv64(w)) for w in want]:
+        if kind != "up-rpfm" and got != [(len(w), rc.fnv64(w)) for w in want]:
             v("frames-differ", "origin received %d datagrams (lengths %s), expected %d (lengths %s) (cut set %s)" % (
                 len(got), [g[0] for g in got][:8], len(want), [len(w) for w in want][:8], str(meta.get("cuts", meta.get("trunc_at")))[:200]))
-        if kind == "rpfm":
+        if kind in ("rpfm", "up-rpfm"):
             for k, w in enumerate(want):
                 e = R.op_by_label("t-cut", "echo%d" % k)
                 if e is None or e["res"] != "ok":
